@@ -243,9 +243,36 @@ def run(rep, tier):
         res = rep.violation(key, what, cex, confirmed=confirm(rep, key, what, data))
         rep.obligation(key, "rsx+z3", res, 0)
     rep.solver_time += time.time() - t_all
+    byte_level(rep)
     kspec.run_spec(rep, "C13", tier, budget_s=300)
     rep.out("well-formedness checking of quick-xml on arbitrary bytes beyond the Kani harness bounds; decoding by aws-sdk; "
             "presence patterns other than {all, none, one absent, one alone} (members are handled independently by the generated code)")
+
+
+def byte_level(rep):
+    """byte level (quick-xml events, escaping): the event layer does not fit CBMC (a single concrete document did not finish
+    symbolic execution in 540 s), so it is covered by a native exhaustive sweep only: validation, not solver-decided"""
+    from vlib import replay
+    t0 = time.time()
+    out = replay.call_fn("xml_text_sweep")
+    if "evaluations" not in out:
+        rep.fail_inconclusive("xml_text_sweep failed: %s" % out)
+        return
+    rep.traces_validated += out["evaluations"]
+    if out["bad"]:
+        b = out["bad"][0]
+        res = rep.violation("xml-bytes:%s" % b["kind"], "byte level of the codec: %s" % b, rep.save_cex("xml_sweep", out["bad"]), confirmed=True)
+        rep.obligation("xml text sweep", "replayer(native sweep)", res, time.time() - t0)
+    else:
+        rep.obligation("byte-level sweep: %d decode/encode runs over all texts of <= 3 bytes over {x, space, tab, newline, >, &, <, ], quote, apostrophe}: "
+                       "decoded text exact (whitespace kept) or refused; encoded text well-formed and decodes back" % out["evaluations"],
+                       "replayer(native sweep; not solver-decided)", "holds", time.time() - t0, queries=out["evaluations"])
+    for m in out["meaning"]:
+        if not m["ok"]:
+            role = "xml_cdata_dropped" if "CDATA" in m["doc"] else "xml_comment_splits_text" if "<!--" in m["doc"] else "xml_text_outside_root"
+            res = rep.violation(role, "document %r decodes to %s, its XML meaning is %r (or refusal)" % (m["doc"], m["got"], m["want"]),
+                                rep.save_cex("xml_meaning_" + role, m), confirmed=True)
+            rep.obligation("xml meaning: " + m["doc"], "replayer", res, 0)
 
 
 def confirm(rep, key, what, data):
